@@ -24,6 +24,12 @@ Sub-checks (case kinds):
                    many distinct formulas) on a long-lived parser: live gc objects, traceback and context
                    chains of the nine singletons, tracemalloc bytes allocated in hotxlfp/ply frames must not
                    grow (object / byte growth is measured a second time, twice as long) [oracle: memory]
+  order            pristine processes (harness/pristine.py: a server that has imported the library and evaluated
+                   nothing forks one child per request): the `probe` formulas - every registered deterministic
+                   function called once - are evaluated on a new parser in one child alone and in another child
+                   after the `first` formulas (the same functions on other arguments); the two lists of records
+                   must be equal; a differing pair is run again alone to name the smallest history
+                                                   [oracle: history-independence across the process]
 The model-compared histories (generated from the pools inside the modelled fragment) are also sent to the Lean
 session model (`session.run`): every record and the final hidden state (errorok, clone lexer text, depth of the
 LR stack, global lexer, traceback chains, number of tracebacks printed) are compared.
@@ -114,16 +120,31 @@ RULE = ('(a) kind `history`: seeded histories on 1-3 long-lived parsers, quick 5
         'or > 0.05 objects or > 0.5 bytes per evaluation there with growth in the interval before too, confirmed by a second '
         'measurement at 100/200/400/800 (30 warm-up evaluations again, memory-distinct with fresh numbers from 7000000; not '
         'taken when a chain grew). Sampling stops early once the traceback chains have grown over two successive intervals. '
-        'Scale changes (a) only. Model-compared histories are sent whole (steps and probe '
+        '(e) kind `order`: 40 x scale batches quick / 400 x scale thorough + 1 fixed case (first ROMAN(1000), ROMAN(3000,2), '
+        'SUM(1,2), UPPER("a"), DATE(2020,1,2); probe ROMAN(1999), ROMAN(3888,2), SUM(1,2,3), UPPER("b"), DATE(2021,3,4)); the order '
+        'cases come first in the case list. A batch = two lists `first` and `probe` with one call of every registered function but '
+        'the four excluded ones (152, in the order of formulas.supported()); per batch one arity 1..3 (drawn from 1,1,2,2,3) and '
+        'one pool for the first argument (p 0.35 ORDER_TEXTS = 12 text literals, else ORDER_NUMS = 15 numbers); per function the '
+        'further arguments from the 15 numbers + the first 3 texts; the probe call has another draw of the first argument from '
+        'the same pool and the same further arguments, which at p 0.3 are replaced by draws from the numbers. run_order sends two '
+        'requests to the server harness/pristine.py (started by the first order case as `python -m harness.pristine`; it imports '
+        'hotxlfp, builds no parser, evaluates nothing, and forks one child per request; the child builds one hotxlfp.Parser '
+        'without registrations, evaluates `first` in order dropping the outcomes, then `probe`): {first: [], probe} = alone, '
+        '{first, probe} = after the history; a record is [type name of the result, its repr cut to 400 characters, error]; every '
+        'position whose two records differ (==) is a finding: the probe formula is evaluated again alone in a pristine process and '
+        'in one that has evaluated only the formula at the same position of `first`, and the message names that pair when these two '
+        'differ, else the length of the batch and its first 3 formulas; stops at 3 findings. A `crash` answer (an exception escaping the child) or '
+        'a server that does not answer READY is a RuntimeError of the plugin, not a finding. '
+        'Scale changes (a) and (e) only. Model-compared histories are sent whole (steps and probe '
         'evaluations) to `session.run`; all other cases are oracle-only. NOW, TODAY, RAND, RANDBETWEEN are excluded. search() '
         '(proof or correspondence broke, no oracle failure yet): 20 + 28 more histories quick, 60 + 140 thorough, oracle only, '
         'until the first failure. A failing history is shrunk (one probe, blocks and registrations dropped, <= 200 re-runs). '
         'Non-trivial: history = a failing step, a step naming a raising callback, a registration and a probe comparison; debug '
         '= a traceback printed with debug on; transient = a formula whose record with answering listeners differs from the '
-        'reference; immut = a formula judged; inert, memory always. Bulk weights (evaluations, '
+        'reference; immut = a formula judged; order = a probe record without error in the process that evaluated nothing before; inert, memory always. Bulk weights (evaluations, '
         'non-trivial inputs, model comparisons): history (parses, probe comparisons, model records), debug (3n, n, 0; n '
         'without the 10 unprintable-value formulas), inert (5n, 4n, 0), transient (5n, 2n, 0), immut (n, n, 0) with n '
-        'formulas, memory (430, 1, 0).')
+        'formulas, memory (430, 1, 0), order (3n, n, 0) with n probe formulas.')
 TRUSTED = ['the LR stack residue after an aborted parse is over-approximated by the session model (compared as: real stack '
            'depth <= model depth) and the cursor of the clone lexer is not compared (its text is); raises caught inside '
            'builtins (CONCATENATE) are not modelled',
@@ -147,7 +168,15 @@ TRUSTED = ['the LR stack residue after an aborted parse is over-approximated by 
            'tracebacks printed are counted by their first line on a redirected sys.stderr',
            'history non-triviality takes a step as raising by its text (RAISE, Z9, Y8, Y1, BAD, bad occur in it) and counts '
            'the set-up registrations as registrations; c04/c08 tree texts are used as formulas only (names those plugins bind '
-           'and the standard bindings lack are unknown names here)']
+           'and the standard bindings lack are unknown names here)',
+           'kind order: harness/pristine.py - one server per check run, a subprocess of sys.executable (cwd = the verif '
+           'directory, the environment of the check, so HOTXLFP_REPO selects the same tree through common.load_repo), '
+           'restarted when it has ended; os.fork per request, the answer written once to an os.pipe by the child (which '
+           'ends with os._exit) and read to end of file by the server, os.waitpid; requests and answers are JSON lines on '
+           'stdin / stdout; what an evaluation leaves behind in module-level state stays in the child, two requests share '
+           'only what the import created; records cross the wire as [type name of the result, repr of the result cut to '
+           '400 characters ("<repr raises X>" when it raises), error] and are compared with ==, i.e. results are equal '
+           'when type name and (cut) repr are; show_wire prints them; no model takes part']
 ASSUMPTIONS = ['"bindings" = variables, functions, the listeners and what they deliver, and the debug flag (the fresh parser '
                'receives it too; the debug triples say it changes no record); once-listeners (which deregister themselves, '
                'i.e. change the bindings) are outside this property (C20)',
@@ -157,6 +186,11 @@ ASSUMPTIONS = ['"bindings" = variables, functions, the listeners and what they d
                '"any sequence of earlier evaluations" includes evaluations and registrations on OTHER parsers of the process, '
                'parsers built later, re-entrant evaluation and a foreign PLY lexer built by the host; the verdict is on the '
                'probes after each step, the record of a step itself is not judged by the oracle',
+               '"any sequence of earlier evaluations" includes the empty one at the level of the PROCESS: kind order '
+               'reads "alone" as a process that has imported the library and evaluated nothing (no parser built before), in '
+               'which one new parser without registrations evaluates the probe formulas in their order; the probe '
+               'formulas that precede a formula in its batch are history on both sides (only a differing pair is run '
+               'again each formula by itself); what the import itself creates belongs to both sides',
                'a listener that sets nothing and raises nothing is no binding: records with and without it are equal, also '
                'when it edits the argument list it was handed',
                'what a listener hands to its setter is the value of that one evaluation, not a registration: once the listener '
